@@ -157,7 +157,12 @@ def apply_fixed_rules(item, lo, hi, ed, counts):
     """R1 R2 R3 R4 R9 on toks[lo:hi]"""
     toks = item.toks
     i = lo
+    taken = sorted((a, b) for (a, b, _) in ed.repl)
     while i < hi:
+        skip = [b for (a, b) in taken if a <= i < b]
+        if skip:
+            i = skip[0]
+            continue
         t = toks[i]
         nxt = toks[i + 1].text if i + 1 < hi else ""
         if t.kind == "ident" and nxt == "!" and i + 2 < hi and toks[i + 2].text in OPEN:
@@ -446,8 +451,6 @@ def _emit_fn(unit, fs, it, out, rules):
         _bump(rules, "R7 external (body not verified): %s" % fs.qual)
     else:
         ed.ins_before(bo, spec_text)
-        # ---- fixed rules
-        apply_fixed_rules(it, bo, bc + 1, ed, counts)
         for (old, new) in unit.rewrites:
             p = pat_of(old)
             kk = 1
@@ -465,6 +468,8 @@ def _emit_fn(unit, fs, it, out, rules):
                 raise ExtractError("%s: replace anchor `%s` (#%d) not found" % (fs.qual, old, k_))
             ed.replace(s, s + len(p), new)
             _bump(rules, "declared rewrite in %s: `%s` => `%s`" % (fs.qual, old, new))
+        # ---- fixed rules (declared rewrites take precedence: the rules skip what those already replaced)
+        apply_fixed_rules(it, bo, bc + 1, ed, counts)
         # ---- loops
         lps = loops_in(it, bo + 1, bc)
         for n, text in fs.loops.items():
